@@ -24,6 +24,10 @@ pub enum NodeError {
     AppendAncestor,
     /// Attempt to prepend an ancestor node to a descendant.
     PrependAncestor,
+    /// Attempt to insert an ancestor node before a descendant.
+    InsertBeforeAncestor,
+    /// Attempt to insert an ancestor node after a descendant.
+    InsertAfterAncestor,
 }
 
 impl NodeError {
@@ -36,6 +40,8 @@ impl NodeError {
             NodeError::Removed => "Removed node cannot have any parent, siblings, and children",
             NodeError::AppendAncestor => "Can not append a node to its descendant",
             NodeError::PrependAncestor => "Can not prepend a node to its descendant",
+            NodeError::InsertBeforeAncestor => "Can not insert a node before its descendant",
+            NodeError::InsertAfterAncestor => "Can not insert a node after its descendant",
         }
     }
 }
